@@ -693,6 +693,45 @@ pub fn c17(ctx: &mut Ctx, tier: &str, seed: u64) {
                     ctx.fail("utf8-valid-agrees", None, rp.clone(), format!("utf8 {} components {}", u, uc));
                 }
             }
+            // every copy of is_valid and of the same-encoding checked conversion gives this verdict:
+            // typed / UTF-8 typed, borrowed and owned
+            {
+                let tp = if win { TypedPath::windows(s) } else { TypedPath::unix(s) };
+                let tb = tp.to_path_buf();
+                let same = |r: Result<TypedPathBuf, CheckedPathError>| match r {
+                    Ok(x) => x.as_bytes() == s.as_slice() && got,
+                    Err(CheckedPathError::InvalidFilename) => !got,
+                    Err(_) => false,
+                };
+                let mut ok = same(if win { tp.with_windows_encoding_checked() } else { tp.with_unix_encoding_checked() })
+                    && same(if win { tb.with_windows_encoding_checked() } else { tb.with_unix_encoding_checked() });
+                let conc = if win { WindowsPath::new(s).with_windows_encoding_checked().map(|x| x.into_vec()) } else { UnixPath::new(s).with_unix_encoding_checked().map(|x| x.into_vec()) };
+                ok = ok && match conc {
+                    Ok(x) => x == *s && got,
+                    Err(CheckedPathError::InvalidFilename) => !got,
+                    Err(_) => false,
+                };
+                if let Ok(st) = std::str::from_utf8(s) {
+                    let up = if win { Utf8TypedPath::windows(st) } else { Utf8TypedPath::unix(st) };
+                    let ub = up.to_path_buf();
+                    let same8 = |r: Result<Utf8TypedPathBuf, CheckedPathError>| match r {
+                        Ok(x) => x.as_str() == st && got,
+                        Err(CheckedPathError::InvalidFilename) => !got,
+                        Err(_) => false,
+                    };
+                    ok = ok && same8(if win { up.with_windows_encoding_checked() } else { up.with_unix_encoding_checked() })
+                        && same8(if win { ub.with_windows_encoding_checked() } else { ub.with_unix_encoding_checked() });
+                    let conc8 = if win { Utf8WindowsPath::new(st).with_windows_encoding_checked().map(|x| x.into_string()) } else { Utf8UnixPath::new(st).with_unix_encoding_checked().map(|x| x.into_string()) };
+                    ok = ok && match conc8 {
+                        Ok(x) => x == st && got,
+                        Err(CheckedPathError::InvalidFilename) => !got,
+                        Err(_) => false,
+                    };
+                }
+                if !ok {
+                    ctx.fail("validity-verdicts-agree-across-copies", None, rp.clone(), format!("is_valid {}", got));
+                }
+            }
             let (_, r) = push_checked_b(win, b"base", s);
             let inv = matches!(r, Err(CheckedPathError::InvalidFilename));
             // InvalidFilename is the verdict iff the first offending component is an invalid name
